@@ -445,6 +445,10 @@ func runRedef(c *Ctx) {
 					return true
 				}
 			}
+			// the generated function is a method of a small struct built by Redefine: a field set once, at construction
+			if cf := p.ConstructedField(v); cf != v && cf == want {
+				return true
+			}
 			return false
 		}
 		var cc *ssa.Call
@@ -477,6 +481,22 @@ func runRedef(c *Ctx) {
 				}
 			case *ssa.Slice:
 				walk(x.X, d+1)
+			case *ssa.Extract:
+				// `args, err := c.args(v)`: the list result of a private helper with several results
+				if cl, ok := x.Tuple.(*ssa.Call); ok {
+					if h := cl.Common().StaticCallee(); h != nil && p.PrivateHelper(h) && x.Index < h.Signature.Results().Len() && core.TypeStr(h.Signature.Results().At(x.Index).Type()) == "[]Arg" {
+						for i, prm := range h.Params {
+							if i < len(cl.Common().Args) {
+								bindings[prm] = cl.Common().Args[i]
+							}
+						}
+						for _, r := range core.Returns(h) {
+							for _, o := range core.ReturnOperand(r, x.Index) {
+								walk(o, d+1)
+							}
+						}
+					}
+				}
 			case *ssa.Phi:
 				for _, e := range x.Edges {
 					walk(e, d+1)
@@ -527,7 +547,7 @@ func runRedef(c *Ctx) {
 				}
 			case *ssa.MakeSlice:
 				private = true
-				core.Instrs(body, func(in ssa.Instruction) {
+				core.Instrs(x.Parent(), func(in ssa.Instruction) {
 					if cl, ok := in.(*ssa.Call); ok && core.CalleeName(cl.Common()) == "builtin.copy" && cl.Common().Args[0] == ssa.Value(x) {
 						if capturedIs(cl.Common().Args[1], 1) {
 							hasOpts = true
@@ -547,22 +567,129 @@ func runRedef(c *Ctx) {
 			if cl, ok := in.(*ssa.Call); ok && core.CalleeName(cl.Common()) == "(reflect.Value).Field" {
 				if fr, ok := core.AsFieldLoad(cl.Common().Args[1]); ok && fr.Field == "index" {
 					if ld, ok := p.Bind(cl.Common().Args[0]).(*ssa.UnOp); ok {
-						if ia, ok := ld.X.(*ssa.IndexAddr); ok && ia.X == ssa.Value(body.Params[0]) {
-							fromArg = true
+						if ia, ok := ld.X.(*ssa.IndexAddr); ok {
+							// the generated function's own argument list: its []reflect.Value parameter
+							for _, bp := range body.Params {
+								if core.TypeStr(bp.Type()) == "[]reflect.Value" && ia.X == ssa.Value(bp) {
+									fromArg = true
+								}
+							}
 						}
 					}
 				}
 			}
 		})
 		c.R.Add("REDEF-R5", "generated|inputs-from-own-arguments", core.FuncName(body), p.Pos(body.Pos()), fromArg, "declared inputs are taken from the generated function's own argument struct, by recorded field index", fmt.Sprintf("ok=%v", fromArg))
+		// the declared result types of the generated function are the original function's own result types, in order,
+		// plus a final error if it had none
+		{
+			var funcOf *ssa.Call
+			for _, ci := range p.RegionCalls(redefine, "reflect.FuncOf") {
+				funcOf, _ = ci.(*ssa.Call)
+			}
+			fnField := p.FuncFnField()
+			okT, whyT := false, "no reflect.FuncOf call found"
+			if funcOf != nil {
+				okT, whyT = true, "result types are Out(i) of the wrapped function's type, plus the error type"
+				seenT := map[ssa.Value]bool{}
+				nOut := 0
+				var wt func(v ssa.Value, d int)
+				wt = func(v ssa.Value, d int) {
+					if v == nil || seenT[v] || d > 12 || !okT {
+						return
+					}
+					seenT[v] = true
+					switch x := v.(type) {
+					case *ssa.Phi:
+						for _, e := range x.Edges {
+							wt(e, d+1)
+						}
+					case *ssa.Slice:
+						wt(x.X, d+1)
+					case *ssa.UnOp:
+						if cf := p.ConstructedField(x); cf != ssa.Value(x) {
+							wt(cf, d+1) // a field of the generated function's state struct, set once by its constructor
+							return
+						}
+						srcs := core.Sources(x)
+						if len(srcs) == 1 && srcs[0] == ssa.Value(x) {
+							okT, whyT = false, "result types come from "+core.Path(v)
+							return
+						}
+						for _, sv := range srcs {
+							wt(sv, d+1)
+						}
+					case *ssa.MakeSlice:
+						// every element stored is Out(i) of f.fn.Type()
+						core.Instrs(x.Parent(), func(in ssa.Instruction) {
+							st, ok := in.(*ssa.Store)
+							if !ok {
+								return
+							}
+							ia, ok := st.Addr.(*ssa.IndexAddr)
+							if !ok {
+								return
+							}
+							isX := ia.X == ssa.Value(x)
+							for _, sv := range core.Sources(ia.X) {
+								if sv == ssa.Value(x) {
+									isX = true
+								}
+							}
+							if !isX {
+								return
+							}
+							cl, ok := st.Val.(*ssa.Call)
+							if !ok || core.CalleeName(cl.Common()) != "(reflect.Type).Out" {
+								okT, whyT = false, "a result type is taken from "+core.Path(st.Val)
+								return
+							}
+							recv := core.CallArgs(cl.Common())[0]
+							for _, rs := range core.Sources(recv) {
+								tc, ok := rs.(*ssa.Call)
+								if !ok || core.CalleeName(tc.Common()) != "(reflect.Value).Type" {
+									okT, whyT = false, "result types are read from "+core.Path(rs)+", not from the wrapped function's type"
+									continue
+								}
+								if fr, ok := core.AsFieldLoad(core.CallArgs(tc.Common())[0]); !ok || fr.Owner != "Func" || fr.Field != fnField {
+									okT, whyT = false, "result types are read from "+core.Path(rs)+", not from the wrapped function's type"
+								}
+							}
+							nOut++
+						})
+					case *ssa.Call:
+						if core.CalleeName(x.Common()) == "builtin.append" {
+							wt(x.Common().Args[0], d+1)
+							for _, e := range appendedValues(x) {
+								if ld, ok := e.(*ssa.UnOp); !ok || !strings.Contains(core.Path(ld), "errType") {
+									okT, whyT = false, "a result type other than the error type is appended: "+core.Path(e)
+								}
+							}
+							return
+						}
+						okT, whyT = false, "result types come from "+core.ShortCallee(core.CalleeName(x.Common()))+", not from the wrapped function's own type"
+					default:
+						okT, whyT = false, "result types come from "+core.Path(v)
+					}
+				}
+				for _, sv := range p.ISources(funcOf.Common().Args[1]) {
+					wt(sv, 0)
+				}
+				if okT && nOut == 0 {
+					okT, whyT = false, "no result type taken from the wrapped function"
+				}
+			}
+			c.R.Add("REDEF-R5", "generated|declares-original-result-types", "Redefine", posOf(p, redefine), okT,
+				"the redefined function declares exactly the result types of the original function (its own reflect type, position by position), plus a final error if it had none", whyT)
+		}
 		// results: error path puts the error last, success path returns the original outputs (plus a nil error if it had none)
 		errPath, okPath := false, false
 		for _, r := range core.Returns(body) {
-			for _, s := range core.Sources(r.Results[0]) {
+			for _, s := range p.ISources(r.Results[0]) {
 				switch x := s.(type) {
 				case *ssa.MakeSlice:
 					// retval: last element = ValueOf(err)
-					core.Instrs(body, func(in ssa.Instruction) {
+					core.Instrs(x.Parent(), func(in ssa.Instruction) {
 						if st, ok := in.(*ssa.Store); ok {
 							if ia, ok := st.Addr.(*ssa.IndexAddr); ok && ia.X == ssa.Value(x) {
 								if cl, ok := st.Val.(*ssa.Call); ok && core.CalleeName(cl.Common()) == "reflect.ValueOf" {
